@@ -15,8 +15,9 @@ TRACE_CONSTS = dict(Idents=set(range(1, 13)), Fns=tlc.Lit('{}'), Lines=tlc.Lit('
 
 LINE_MARKS = [('a', 'f_first'), ('a', 'f_second'), ('a', 'f_third'), ('a', 'f_second'), ('a', 'f_call'), ('a', 'f_plain'), ('a', 'f_last'), ('a', 'g_first'), ('a', 'g_last'),
               ('b', 'f_first'), ('b', 'f_last'), ('b', 'g_last'), ('a', 'gen_first'), ('a', 'gen_yield'),
-              ('a', 'ktag'), ('a', 'kf_first'), ('a', 'kf_last')]
-METHODS = [('a', 'f'), ('a', 'g'), ('b', 'f'), ('b', 'g'), ('a', 'gen'), ('a', 'nosuch')]
+              ('a', 'ktag'), ('a', 'kctag'), ('a', 'kf_first'), ('a', 'kf_last')]
+METHODS = [('a', 'f'), ('a', 'g'), ('b', 'f'), ('b', 'g'), ('a', 'gen'), ('a', 'nosuch'),
+           ('a', 'kf'), ('a', 'en')]       # names of which other function names are a suffix (f) or a prefix/suffix part (gen)
 
 
 def mc_cfg(top=False, idents=(1, 2), fns='MCFns', tps='MCTpSets', lines=(1, 2), ev=6, depth=2, invs=MC_INVS, blind=False, reinstall=False):
@@ -95,6 +96,7 @@ def run_scenarios(c, rng, wd, n, span_bias, kind, tagbase, capture=False, curate
                     known_caught.append(text)
                 else:
                     problems.append(text)
+            problems += sc.span_problems()
             if sc.leftover:
                 problems.append('pending callback entries left in the shared store after all threads ended: %s'
                                 % sc.leftover)
@@ -290,6 +292,11 @@ def run(c):
                    [('a.kf', [('call', 'a.f', [])])], [('a.f', [])]]),
                  ([dict(id=1, kind='method', file='a', name='f', line=0, span='none')],
                   [[('a.kf', [])], [('a.f', [])], [('a.kf', [])], [('a.f', [])]]),
+                 # a method tracepoint names ONE function name: not the functions whose name merely ends (or begins) like it
+                 ([dict(id=1, kind='method', file='a', name='kf', line=0, span='none'),
+                   dict(id=2, kind='method', file='a', name='en', line=0, span='none'),
+                   dict(id=3, kind='method', file='a', name='ge', line=0, span='none')],
+                  [[('a.f', [('call', 'a.kf', [('line',)]), ('gen', 2), ('call', 'a.g', [])])], [('a.kf', [])]]),
                  # a tracepoint of the service and one registered in code on the same line, while the service's
                  # configuration changes several times: each acts once per arrival at the line, all the time
                  ([dict(id=1, kind='line', file='a', line='f_plain', span='none'),
